@@ -20,8 +20,8 @@ pub const SPEC: PropSpec = PropSpec {
     required: &["rewrite.comment_at_boundary", "rewrite.comment_in_text", "rewrite.pi", "rewrite.whitespace", "rewrite.cdata_whole", "rewrite.cdata_split", "rewrite.charref_dec", "rewrite.charref_hex", "rewrite.empty_to_pair", "rewrite.pair_to_empty", "rewrite.attr_permute", "rewrite.attr_quote_swap", "rewrite.attr_spacing", "rewrite.prolog", "rewrite.trailing", "rewrite.unknown_attr", "rewrite.unknown_child_start", "rewrite.unknown_child_end", "rewrite.unknown_child_spaced", "rewrite.tag_spacing", "exhaustive_site_docs", "types_seen_all"],
     run,
     replay,
-    thorough_layers: &[],
-    quick_layers: &[],
+    thorough_layers: &[("novl", 50)],
+    quick_layers: &[("novl", 50)],
     post: Some(post),
 };
 
